@@ -63,7 +63,7 @@ func vpC15Leaf(k int) (error, string) {
 	return nil, ""
 }
 
-const vpC15Wraps = 4
+const vpC15Wraps = 6
 
 func vpC15Wrap(e error, k int) error {
 	switch k {
@@ -73,6 +73,10 @@ func vpC15Wrap(e error, k int) error {
 		return NewElectionError(vpStr("wcode"), vpStr("winst"), vpStr("wreason"), e)
 	case 2:
 		return &TokenValidationError{Reason: vpStr("wreason"), Err: e}
+	case 4: // two %w verbs: Unwrap() []error
+		return fmt.Errorf("%w: %w", errors.New(vpStr("wtext")), e)
+	case 5:
+		return errors.Join(errors.New(vpStr("wtext")), e)
 	}
 	return fmt.Errorf("failed to get KV bucket %s: %w", vpStr("wbucket"), e)
 }
